@@ -1,0 +1,29 @@
+//go:build verif
+
+// Contracts for govc (contract-based deductive verification); comment-only, compiled only with -tags verif.
+package tree
+
+// ---- hash algebra. H(l, r) = keccak256(l ‖ r); collision freedom (A2) is the axiom Hinj.
+
+//@ spec fn H(l Hash, r Hash) Hash = keccak(catB(catB(emptyB(), bytesOf(hb(l), 32)), bytesOf(hb(r), 32)))
+//@ axiom Hinj(a Hash, b Hash, c Hash, d Hash) : H(a, b) == H(c, d) ==> a == c && b == d
+//@ spec fn zeroAt(h int) Hash = ite(h <= 0, ZeroHash, H(zeroAt(h-1), zeroAt(h-1)))
+
+// the root obtained by hashing a leaf upwards with the siblings of a proof, along the bits of the index
+//@ spec fn foldUp(leaf Hash, proof []Hash, idx uint32, h int) Hash = ite(h <= 0, leaf, ite(bitAt(idx, h-1), H(proof[h-1], foldUp(leaf, proof, idx, h-1)), H(foldUp(leaf, proof, idx, h-1), proof[h-1])))
+
+//@ func newTreeNode
+//@   props C01 C08 C11
+//@   ensures[node] result.Hash == H(left, right) && result.Left == left && result.Right == right
+
+//@ func generateZeroHashes
+//@   props C01 C08 C11
+//@   requires height <= 64
+//@   ensures[zero-hashes] len(result) == height + 1 && forall(k, 0, height + 1, result[k] == zeroAt(k))
+//@   loop 0 invariant 1 <= i && i <= height + 1 && len(zeroHashes) == i && off(zeroHashes) == 0
+//@   loop 0 invariant forall(k, 0, i, zeroHashes[k] == zeroAt(k))
+
+//@ func CalculateRoot
+//@   props C08 C09 C12
+//@   ensures[fold] result == foldUp(leafHash, proof, index, 32)
+//@   loop 0 unroll 32
